@@ -115,7 +115,7 @@ def check(prop, tier, only=None):
     t0 = time.time()
     patterns = cfg["patterns"][tier] if not only else [only]
     target = C.keyed_target_dir(cfg["target"])
-    log = os.path.join(C.CACHE, "logs", "%s-%s.log" % (prop, tier))
+    log = os.path.join(C.CACHE, "logs", "%s-%s%s.log" % (prop, tier, ("-" + C.RUN) if C.RUN else ""))
     g = K.run_group(cfg["crate"], target, patterns, jobs=cfg.get("jobs", 8), timeout=cfg["timeout"][tier],
                     extra=cfg.get("extra"), env_extra=cfg.get("env"), log=log)
     results = g["results"]
